@@ -218,7 +218,8 @@ def fmt_line(fid, d, style):
 # lines which carry no data bytes: blank, comments, and what candump prints for remote (RTR) frames and for empty
 # frames -- these look like a frame up to the data field
 JUNK_LINES = ["", "   ", "\t", "# capture restarted", "can0 garbage",
-              "  can0  7E0   [0]  remote request", "  can0  123   [8]  remote request", "  can0  7E8   [0] "]
+              "  can0  7E0   [0]  remote request", "  can0  123   [8]  remote request", "  can0  7E8   [0] ",
+              "can0  [3] 02 10 03", "  can0  7E 8   [3]  02 10 03", "  can0  7E8   [3]  02 1 003 5555"]
 
 
 def log_text(frames, style_of, junk=None, eol="\n"):
